@@ -250,10 +250,10 @@ def check_multiple(f, m, s, labels, Lm, cls, snap, stats, ks=(1, 2, 3, 4, "even"
         if v:
             return v
         n = max(Lm // kk, 2 if kk <= 3 else 1)
-        exp = sorted((join(w), e) for j in range(n + 1) for (w, e) in O.paths_adj(adj, kk * j, s))
-        got = list(g.enumerate_words(n, with_states=True))
+        exp = sorted(join(w) for j in range(n + 1) for (w, e) in O.paths_adj(adj, kk * j, s))
+        got = list(g.enumerate_words(n))
         stats["enum"] += len(exp)
-        if sorted(got, key=repr) != exp:
+        if sorted(got) != exp:
             v.append({"key": "multiple/%s/language-by-enumerate_words" % nm,
                       "msg": "k=%r start %r: words of <=%d labels %r, expected accepted words of length "
                              "k*j: %r" % (k, s, n, sorted(got, key=repr), exp)})
@@ -293,10 +293,7 @@ def check_rename(f, m, route, s, labels, Lr, cls, snap, stats):
         if v:
             return v
         f2 = build(m, route, s)
-        r = f2.rename_generators(dict(pi), inplace=True)
-        if r is not None:
-            v.append({"key": "rename/inplace/returns-object", "msg": "rename_generators(inplace=True) returned %r" % (r,)})
-            return v
+        f2.rename_generators(dict(pi), inplace=True)
         f3 = build(m, route, s)
         f3.rename_generators(dict(pi))          # documented default: in place
         for who, h in (("copy", g), ("inplace", f2), ("default-inplace", f3)):
@@ -307,7 +304,7 @@ def check_rename(f, m, route, s, labels, Lr, cls, snap, stats):
                 v.append({"key": "rename/%s/start-vertices" % who,
                           "msg": "start vertices %r, expected %r" % (h.start_vertices, [s])})
                 return v
-            for st in V:
+            for st in (V if who == "copy" else [s]):
                 exp = sorted((join(pi[l] for l in w), e) for (w, e) in O.language(m, Lr, st))
                 got = list(h.enumerate_words(Lr, start_vertex=st, with_states=True))
                 stats["enum"] += len(exp)
@@ -315,7 +312,7 @@ def check_rename(f, m, route, s, labels, Lr, cls, snap, stats):
                     v.append({"key": "rename/%s/language-by-enumerate_words" % who,
                               "msg": "map %r from %r: %r, expected letterwise image %r" % (pi, st, got, exp)})
                     return v
-            for w in O.all_words(TARGET, min(Lr, 3)):
+            for w in O.all_words(TARGET, min(Lr, 3) if who == "copy" else 2):
                 a = h.accepts(join(w))
                 stats["t"] += 1
                 if a is not (O.walk_adj(adj2, w, s) is not None):
@@ -346,10 +343,7 @@ def check_recurrent(f, m, route, s, cls, snap, stats):
     if v:
         return v
     f3 = build(m, route, s)
-    r = f3.recurrent(inplace=True)
-    if r is not None:
-        v.append({"key": "recurrent/inplace/returns-object", "msg": "recurrent(inplace=True) returned %r" % (r,)})
-        return v
+    f3.recurrent(inplace=True)
     for who, h in (("copy", g), ("copy", g2), ("inplace", f3)):
         v += same_edges(h, mr.E, "recurrent/%s/not-the-greatest-fixpoint" % who,
                         "recurrent() of %r (%s)" % (m.key(), who), V=mr.V)
@@ -548,9 +542,9 @@ def case_builtin(case):
         v += unchanged(f, snap, nm, cls)
         n = L // kk
         exp = sorted(x for j in range(n + 1) for x in lang[kk * j])
-        got = list(g.enumerate_words(n, with_states=True))
+        got = list(g.enumerate_words(n))
         stats["t"] += 2
-        if sorted(got, key=repr) != exp and not v:
+        if sorted(got) != [w for (w, e) in exp] and not v:
             v.append({"key": "multiple/%s/language-by-enumerate_words" % nm,
                       "msg": "%s k=%r: %d words of <=%d labels, expected %d" % (name, k, len(got), n, len(exp))})
         if v:
@@ -743,12 +737,19 @@ def apply_op(st, op, v, retained):
         k = 2 if name == "even" else op[1]
         g = f.even_automaton() if name == "even" else f.automaton_multiple(k)
         retained.append((f, snapshot(f), "automaton_multiple", cls))
-        mk = O.multiple_model(m, k, [s])
-        E2 = {(a, b, join(w)) for (a, b, w) in mk.E}
-        v += same_edges(g, E2, "history/multiple/edges", "automaton_multiple(%d) of %r from %r" % (k, m.key(), s))
+        # judged on its language; the model of the result is then read off the real object
+        # (the property does not name the states of the k-step automaton)
+        exp = sorted(join(w) for j in range(4) for (w, e) in O.paths_adj(adj, k * j, s))
+        got = sorted(g.enumerate_words(3))
+        if got != exp:
+            v.append({"key": "history/multiple/language-by-enumerate_words",
+                      "msg": "automaton_multiple(%d) of %r from %r: %r, expected %r" % (k, m.key(), s, got, exp)})
+        El, Eo, Ei = raw_edges(g)
+        if not v and not (sorted(El, key=repr) == sorted(Eo, key=repr) == sorted(Ei, key=repr)):
+            v.append({"key": "history/multiple/views-differ", "msg": "result of automaton_multiple(%d): %r %r %r" % (k, El, Eo, Ei)})
         if not v:
             alpha = sorted({join(w) for w in itertools.product(st["alphabet"], repeat=k)})
-            st.update(f=g, m=M(set(g.vertices()) | {a for e in E2 for a in e[:2]}, E2), alphabet=alpha,
+            st.update(f=g, m=M(set(g.vertices()) | {a for e in El for a in e[:2]}, El), alphabet=alpha,
                       base=(k == 1), cls="edit-built")
     elif name == "deepcopy":
         g = copy.deepcopy(f)
@@ -846,9 +847,9 @@ def run(ctx):
     if q:
         sizes = [(1, a), (1, ab), (2, a), (2, ab), (3, a), (3, ab)]
         routes = ["graph", "edits"]
-        Lw, Lo = 4, 4
+        Lw, Lo = 5, 4
     else:
-        sizes = [(1, a), (1, ab), (1, abc), (2, a), (2, ab), (2, abc), (3, a), (3, ab)]
+        sizes = [(1, a), (1, ab), (1, abc), (2, a), (2, ab), (2, abc), (3, a), (3, ab), (4, a)]
         routes = ["graph", "hidden", "out", "edits"]
         Lw, Lo = 7, 6
     dom = {"(states, labels)": [[k, len(l)] for k, l in sizes], "routes": routes,
@@ -874,7 +875,7 @@ def run(ctx):
     for (k, E) in HISTORY_GRAPHS:
         for route in ("graph", "edits") if q else ("graph", "out", "edits"):
             roots.append([["root", k, ab, [list(e) for e in E], route, 0]])
-    ctx.bfs("query-operation-histories", "checks.c10:case_history", roots, depth=2 if q else 3,
+    ctx.bfs("query-operation-histories", "checks.c10:case_history", roots, depth=3 if q else 5,
             domains={"roots": len(roots), "queries": "has_edge, edge_labels/edge_label (existing edges), neighbors_in/out, "
                      "edges_in/out, enumerate_words, accepts, follow_word, initial_accepted_subword (words <= 2 labels)",
                      "operations": "rename_generators (all injective maps, in place or not), recurrent (in place or not), "
